@@ -248,7 +248,9 @@ func (s *sim) welcome(cfgNick string) {
 		s.cat("004")
 	}
 	if s.prof.chanmodes != "" || s.r.Intn(2) == 0 {
-		toks := []string{"NETWORK=TestNet", Pick(s.r, "SILENCE=", "SILENCE=15", "EXCEPTS="), "CASEMAPPING=rfc1459", "NICKLEN=" + strconv.Itoa(9+s.r.Intn(30)), "CHANTYPES=#&+!", "SAFELIST", "EXCEPTS", "INVEX=I", "TOPICLEN=390", "MODES=4"}
+		toks := []string{"NETWORK=TestNet", Pick(s.r, "SILENCE=", "SILENCE=15", "EXCEPTS="),
+			// values that contain "=" themselves: only the first "=" separates key and value
+			Pick(s.r, "EXTBAN=~,a=account,r=realname", "EXTBAN=$,ajrxz", "SECURELIST=60=", "KEYTOKEN=dGVzdA==", "X=="), "CASEMAPPING=rfc1459", "NICKLEN=" + strconv.Itoa(9+s.r.Intn(30)), "CHANTYPES=#&+!", "SAFELIST", "EXCEPTS", "INVEX=I", "TOPICLEN=390", "MODES=4"}
 		if s.prof.chanmodes != "" {
 			toks = append(toks, "CHANMODES="+s.prof.chanmodes, "PREFIX="+s.prof.prefix)
 		}
@@ -836,7 +838,7 @@ func (s *sim) step() {
 	case k < 96:
 		s.srv("PING", Pick(r, "irc.test", "12345"))
 	case k < 97:
-		s.srv("005", s.me.nick, Pick(r, "MONITOR=100", "WHOX", "KNOCK", "ELIST=CMNTU"), Pick(r, "SILENCE=15", "STATUSMSG=@+", "TARGMAX=PRIVMSG:4", "KNOCK=", "CALLERID="), "are supported by this server")
+		s.srv("005", s.me.nick, Pick(r, "MONITOR=100", "WHOX", "KNOCK", "ELIST=CMNTU"), Pick(r, "SILENCE=15", "STATUSMSG=@+", "TARGMAX=PRIVMSG:4", "KNOCK=", "CALLERID=", "CLIENTTAGDENY=*,-a=b", "VTOKEN=YWJj="), "are supported by this server")
 		s.cat("005-late")
 	case k < 98:
 		s.motd()
@@ -1307,6 +1309,10 @@ func init() {
 				// (former finding) an ISUPPORT token with an empty value
 				EncodeHistory("feed", "me", "user", []Ev{
 					srv("001", "me", "Welcome"), srv("005", "me", "SILENCE=", "NETWORK=Test", "are supported by this server"),
+				}),
+				// an ISUPPORT value that contains "=": key and value split at the first one only
+				EncodeHistory("feed", "me", "user", []Ev{
+					srv("001", "me", "Welcome"), srv("005", "me", "EXTBAN=~,a=account,r=realname", "KEYTOKEN=dGVzdA==", "are supported by this server"),
 				}),
 				// our own nick kicked in another spelling
 				EncodeHistory("feed", "me[]", "user", []Ev{
